@@ -184,6 +184,10 @@ carquet_status_t carquet_read_dictionary_page(
             break;
     }
 
+    if (header->num_values < 0) {
+        CARQUET_SET_ERROR(error, CARQUET_ERROR_INVALID_PAGE, "Negative dictionary size");
+        return CARQUET_ERROR_INVALID_PAGE;
+    }
     reader->dictionary_count = header->num_values;
 
     if (reader->type == CARQUET_PHYSICAL_BYTE_ARRAY) {
@@ -234,6 +238,11 @@ carquet_status_t carquet_read_dictionary_page(
     } else {
         /* Fixed size values */
         size_t dict_size = value_size * header->num_values;
+        if (value_size == 0 || dict_size > page_size) {
+            CARQUET_SET_ERROR(error, CARQUET_ERROR_INVALID_PAGE,
+                "Dictionary page too small for its value count");
+            return CARQUET_ERROR_INVALID_PAGE;
+        }
         reader->dictionary_data = malloc(dict_size);
         if (!reader->dictionary_data) {
             CARQUET_SET_ERROR(error, CARQUET_ERROR_OUT_OF_MEMORY, "Failed to allocate dictionary");
@@ -719,6 +728,11 @@ static carquet_status_t load_dictionary_page_fread(
         return CARQUET_ERROR_INVALID_PAGE;
     }
 
+    if (!page_sizes_valid(&page_header)) {
+        CARQUET_SET_ERROR(error, CARQUET_ERROR_INVALID_PAGE, "Negative size in page header");
+        return CARQUET_ERROR_INVALID_PAGE;
+    }
+
     /* Seek past header and read page data */
     if (fseek(file, dict_offset + (long)header_size, SEEK_SET) != 0) {
         CARQUET_SET_ERROR(error, CARQUET_ERROR_FILE_SEEK, "Failed to seek past dict header");
@@ -1155,6 +1169,11 @@ static carquet_status_t load_next_page_fread(
 
     if (page_header.type != CARQUET_PAGE_DATA) {
         CARQUET_SET_ERROR(error, CARQUET_ERROR_INVALID_PAGE, "Expected data page");
+        return CARQUET_ERROR_INVALID_PAGE;
+    }
+
+    if (!page_sizes_valid(&page_header) || page_header.data_page_header.num_values < 0) {
+        CARQUET_SET_ERROR(error, CARQUET_ERROR_INVALID_PAGE, "Negative size in page header");
         return CARQUET_ERROR_INVALID_PAGE;
     }
 
